@@ -67,14 +67,14 @@ def hyp(ctx, name, strategy, body, max_examples, shrink_s=None,
         shrink_s = 8 if ctx.quick else 60
     for sig in new[:3]:
         best = [None]
-        deadline = time.time() + shrink_s
+        deadline = time.monotonic() + shrink_s
 
         @hypothesis.seed(sd)
         @settings(max_examples=max_examples,
                   phases=[Phase.generate, Phase.shrink], **common)
         @given(strategy)
         def find(x):
-            if time.time() > deadline:
+            if time.monotonic() > deadline:
                 raise _StopShrink()
             sub = Ctx(ctx.prop, ctx.tier, ctx.seed, ctx.task)
             body(sub, x)
@@ -378,7 +378,7 @@ def main(argv):
         return 2
     pid = argv[0].upper()
     seed = int(os.environ.get('VERIF_SEED', '1') or 1)
-    t0 = time.time()
+    t0 = time.monotonic()
     try:
         setup_repo_import()
         mod = load_prop(pid)
@@ -404,7 +404,7 @@ def main(argv):
         results = [run_corpus(pid, mod, tier, seed)]
         results += run_tasks(pid, tier, seed, mod)
         m = merge(results)
-        wall = time.time() - t0
+        wall = time.monotonic() - t0
         viol = len(m['failures'])
         write_evidence(pid, tier, seed, mod, m, wall, viol)
         kf = {f.get('id', f.get('what')): f
